@@ -166,6 +166,8 @@ static std::string algebra(const std::string& name, const std::vector<Operand>& 
   if (name == "sub"  && g == "VV") return outV(mkV(a[0]) - mkV(a[1]));
   if (name == "addeq" && g == "VV") { V x = mkV(a[0]); x += mkV(a[1]); return outV(x); }
   if (name == "subeq" && g == "VV") { V x = mkV(a[0]); x -= mkV(a[1]); return outV(x); }
+  if (name == "add"  && g == "WW") return outV(trans(mkV(a[0])) + trans(mkV(a[1])), "W");
+  if (name == "sub"  && g == "WW") return outV(trans(mkV(a[0])) - trans(mkV(a[1])), "W");
   if (name == "add"  && g == "SS") return outS(mkS(a[0]) + mkS(a[1]));
   if (name == "sub"  && g == "SS") return outS(mkS(a[0]) - mkS(a[1]));
   if (name == "addf" && g == "SS") { S x = mkS(a[0]), y = mkS(a[1]); return outS(GNU_gama::operator+<double,int,Exc>(x, y)); }
@@ -236,6 +238,7 @@ static std::string algebra(const std::string& name, const std::vector<Operand>& 
     std::string s = "ok U " + std::to_string(U.rows()) + " " + std::to_string(U.cols()) + raw(U);
     s += " W " + std::to_string(w.dim()) + raw(w);
     s += " V " + std::to_string(Vm.rows()) + " " + std::to_string(Vm.cols()) + raw(Vm);
+    s += " K " + vp::hex(svd.tol());      // W_tol as set_inv_W left it (1000 * the bisected machine epsilon)
     return s;
   }
   return "bad-op";
